@@ -143,6 +143,15 @@ pub fn run(ctx: &Ctx, model: &mut Model, rep: &mut Report) {
             None => rep.resolved_findings.push(json!({"id": f.id, "what": f.what})),
         }
     }
+    // corpus: the witnesses of repaired findings run first and must pass
+    for f in known::load(ctx, "C01").into_iter().filter(|f| f.status == "fixed") {
+        let (k, t) = (f.witness["key"].as_str().unwrap_or("a").to_string(), f.witness["text"].as_str().unwrap_or("").to_string());
+        rep.evaluations += 1;
+        rep.count("corpus_fixed_witnesses");
+        if let Some(what) = check_doc(&k, &t) {
+            rep.fail(json!({"kind": "content", "key": k, "text": t, "what": format!("repaired finding {} is back: {}", f.id, what)}));
+        }
+    }
     let n = if ctx.thorough { 30000 } else { 1500 };
     let keys: Vec<String> = hist::KEY_POOL.iter().map(|s| s.to_string()).collect();
     for i in 0..n {
@@ -150,6 +159,8 @@ pub fn run(ctx: &Ctx, model: &mut Model, rep: &mut Report) {
         let key = r.pick(&keys[..]).clone();
         let mut p = hist::profile_for(&keys, &key, true);
         p.max_blocks = if ctx.thorough { 14 } else { 8 };
+        // every third document: table cells with inline markup (oracle only: the model renders plain-word tables)
+        p.table_markup = i % 3 == 1;
         let text = gen::document(&mut r, &p);
         let nblocks = text.split("\n\n").count();
         rep.case(&text, nblocks >= 2);
